@@ -86,8 +86,8 @@ func rulesC15(c *Ctx) {
 		}
 		found := false
 		ast.Inspect(p.FuncDecls[m].Body, func(n ast.Node) bool {
-			if bl, ok := n.(*ast.BasicLit); ok {
-				if tv := p.Info.Types[bl]; tv.Value != nil && tv.Value.Kind() == constant.String && strings.Contains(constant.StringVal(tv.Value), "[REDACTED]") {
+			if e, ok := n.(ast.Expr); ok {
+				if tv := p.Info.Types[e]; tv.Value != nil && tv.Value.Kind() == constant.String && strings.Contains(constant.StringVal(tv.Value), "[REDACTED]") {
 					found = true
 				}
 			}
